@@ -309,6 +309,8 @@ func (c *collector) report(t interface {
 		// evidence nor a violation; tools/check.py turns a run with such cases into "inconclusive" (exit 2)
 		c.addExtra("harness_errors", 1)
 		t.Logf("HARNESS-ERROR property=%s %v", c.Property, err)
+		// rapid shows a property's log only when it fails: the line is also printed at once
+		fmt.Printf("HARNESS-ERROR property=%s %v\n", c.Property, err)
 		return
 	}
 	c.record(caseJSON, v)
